@@ -4,8 +4,7 @@
    Theory/Rebase.v, Theory/RebaseCodec.v, Theory/DagTopoFacts.v.
 
    g is ANY well-formed revision graph (any size and shape: merges, criss-cross,
-   ghosts, several roots); theorems without the wf_dag hypothesis hold for every
-   parent table whatsoever.  [simple_plan g gen todo_set order start stop onto skip]
+   ghosts, several roots).  [simple_plan g gen todo_set order start stop onto skip]
    models generate_simple_plan; [order] is what topo_sort returned for the
    parent map of todo_set -- an environment value, constrained only by
    [topo_sortedb] / [topo_order_of] (no revision precedes one of its parents);
@@ -58,7 +57,8 @@ Print Assumptions C51_plan_succeeds.
 (* any todo_set, start, stop: the keys are the slice order[index(start) : index(stop)+1]
    ([replayed]), in that order *)
 Theorem C51_domain_slice :
-  forall g gen todo_set order start stop onto m,
+  forall g gen, wf_dag g = true ->
+  forall todo_set order start stop onto m,
   topo_sortedb g order = true ->
   simple_plan g gen todo_set order start stop onto false = Ok m ->
   replayed order start stop (map fst m).
@@ -68,7 +68,8 @@ Print Assumptions C51_domain_slice.
 (* with skip_full_merged ("modulo skip_full_merged"): a subsequence of the
    slice; only merge revisions are dropped *)
 Theorem C51_domain_skip_full_merged :
-  forall g gen todo_set order start stop onto skip m,
+  forall g gen, wf_dag g = true ->
+  forall todo_set order start stop onto skip m,
   topo_sortedb g order = true ->
   simple_plan g gen todo_set order start stop onto skip = Ok m ->
   exists todo f, replayed order start stop todo /\ map fst m = filter f todo /\
@@ -78,25 +79,42 @@ Print Assumptions C51_domain_skip_full_merged.
 
 (* ---- clause 2: new parents are the new base or revisions rewritten earlier ------ *)
 
-(* FALSE as stated when skip_full_merged is on (the command's default): the
-   child of a dropped merge gets the OLD merge revision -- a revision that was to
-   be replayed, whose own parent IS rewritten by the plan -- as a new parent *)
-Theorem C51_parents_ordered_refuted :
-  exists g todo_set order tip onto m old new ps p,
-    wf_dag g = true /\ topo_order_of g todo_set order = true /\
-    todo_set = find_unique_ancestors g tip [onto] /\
-    simple_plan g (gen_canon None) todo_set order None (Some tip) onto true = Ok m /\
-    In (old, (new, ps)) m /\ In p ps /\
-    p <> onto /\ (forall e, In e m -> fst (snd e) <> p) /\ In p todo_set /\
-    (exists e, In e m /\ In (fst e) (parents g p)).
-Proof. exact parents_refuted. Qed.
-Print Assumptions C51_parents_ordered_refuted.
+(* (after the repair be02b0d of C51-skipped-merge-child this holds with and
+   without skip_full_merged.)  Every entry has new = gen old ps <> old and at
+   least one parent, and every new parent is
+     - the new base, or
+     - the new id of an EARLIER entry o' that rewrites an old parent of the
+       revision -- or, new disjunct, a parent of a merge that skip_full_merged
+       dropped among those old parents, and so on through dropped merges:
+       [linked (dropped todo m) o' old]  (for a dropped merge it is the rewritten
+       left parent, or the rewritten merged parent when the left one is in onto's
+       ancestry), or
+     - an old parent outside the replayed slice (a ghost, a revision before start) *)
+Theorem C51_parents_ordered :
+  forall g gen, wf_dag g = true ->
+  forall todo_set order start stop onto skip m,
+  topo_sortedb g order = true ->
+  simple_plan g gen todo_set order start stop onto skip = Ok m ->
+  exists todo, replayed order start stop todo /\
+  forall m1 old new ps m2, m = m1 ++ (old, (new, ps)) :: m2 ->
+    new = gen old ps /\ new <> old /\ ps <> [] /\
+    forall p, In p ps ->
+      p = onto \/
+      (exists o' ps', linked g (dropped g todo m) o' old /\ In (o', (p, ps')) m1) \/
+      (In p (parents g old) /\ ~ In p todo).
+Proof. exact plan_parents. Qed.
+Print Assumptions C51_parents_ordered.
 
-(* guard: skip_full_merged = false.  Every new parent is the new base, or the
-   new id of an EARLIER entry that rewrites one of the revision's old parents,
-   or an old parent that the plan does not rewrite at all (a ghost, or a
-   revision before the start revision) *)
-Theorem C51_parents_ordered_guarded :
+(* what [linked] means: a strict ancestor in the old graph, reached through
+   dropped merges only; with nothing dropped it is an old parent *)
+Theorem C51_linked_is_strict_ancestor :
+  forall g, wf_dag g = true -> forall D o r, linked g D o r -> reach g o r /\ o <> r.
+Proof. exact linked_reach. Qed.
+Print Assumptions C51_linked_is_strict_ancestor.
+
+(* without skip_full_merged: the entry rewrites an old parent itself, and an
+   untouched old parent is not a key of the plan at all *)
+Theorem C51_parents_ordered_noskip :
   forall g gen, wf_dag g = true ->
   forall todo_set order start stop onto m m1 old new ps m2,
   topo_sortedb g order = true ->
@@ -108,57 +126,60 @@ Theorem C51_parents_ordered_guarded :
     (exists o' ps', In o' (parents g old) /\ In (o', (p, ps')) m1) \/
     (In p (parents g old) /\ ~ In p (map fst m)).
 Proof. exact plan_parents_noskip. Qed.
-Print Assumptions C51_parents_ordered_guarded.
-
-(* what still holds with skip_full_merged: ... or an old parent not rewritten earlier *)
-Theorem C51_parents_ordered_partial :
-  forall g gen todo_set order start stop onto skip m m1 old new ps m2,
-  topo_sortedb g order = true ->
-  simple_plan g gen todo_set order start stop onto skip = Ok m ->
-  m = m1 ++ (old, (new, ps)) :: m2 ->
-  new = gen old ps /\ new <> old /\ ps <> [] /\
-  forall p, In p ps ->
-    p = onto \/
-    (exists o' ps', In o' (parents g old) /\ In (o', (p, ps')) m1) \/
-    (In p (parents g old) /\ ~ In p (map fst m1)).
-Proof. exact plan_parents_any. Qed.
-Print Assumptions C51_parents_ordered_partial.
+Print Assumptions C51_parents_ordered_noskip.
 
 (* rebase_todo yields the entries whose new revision does not exist yet, in
    plan order: every new parent that is the new id of a plan entry is either in
    the repository already or that entry is listed earlier *)
 Theorem C51_rebase_todo_dependencies_first :
-  forall g gen todo_set order start stop onto skip m has m1 old new ps m2,
+  forall g gen, wf_dag g = true ->
+  forall todo_set order start stop onto skip m has m1 old new ps m2,
   topo_sortedb g order = true ->
   simple_plan g gen todo_set order start stop onto skip = Ok m ->
   m = m1 ++ (old, (new, ps)) :: m2 ->
   rebase_todo has m = rebase_todo has m1 ++ (if has new then [] else [old]) ++ rebase_todo has m2 /\
   forall p, In p ps ->
-    p = onto \/ (In p (parents g old) /\ rm_get m1 p = None) \/
+    p = onto \/ In p (parents g old) \/
     exists o' ps', In (o', (p, ps')) m1 /\ (has p = true \/ In o' (rebase_todo has m1)).
 Proof. exact todo_deps_first. Qed.
 Print Assumptions C51_rebase_todo_dependencies_first.
 
-(* rebase() replays in graph.iter_topo_order(replace_map.keys()): in ANY
-   topological order l of the old graph the entry that a new parent refers to
-   comes strictly before the entry that uses it *)
-Theorem C51_any_topological_order_dependencies_first :
+(* rebase() does NOT replay in plan order but in graph.iter_topo_order(replace_map.keys()),
+   a topological order of the OLD graph restricted to the keys.  With
+   skip_full_merged that is NOT enough (candidate finding C51-dropped-merge-replay-order):
+   a dropped merge is not a key, so its child and the entry the child now depends
+   on are unrelated there; [5; 3] is such an order for the plan {3 -> 103, 5 -> 105 on 103} *)
+Theorem C51_any_topological_order_dependencies_first_refuted :
+  exists g todo_set order tip onto m l old new ps p o' ps' i j,
+    wf_dag g = true /\ topo_order_of g todo_set order = true /\
+    todo_set = find_unique_ancestors g tip [onto] /\
+    simple_plan g (gen_canon None) todo_set order None (Some tip) onto true = Ok m /\
+    topo_order_of g (map fst m) l = true /\
+    In (old, (new, ps)) m /\ In p ps /\ In (o', (p, ps')) m /\
+    index_of o' l = Some i /\ index_of old l = Some j /\ j < i.
+Proof. exact any_topo_refuted. Qed.
+Print Assumptions C51_any_topological_order_dependencies_first_refuted.
+
+(* guard: skip_full_merged = false.  In ANY topological order l of the old
+   graph the entry that a new parent refers to comes strictly before its user *)
+Theorem C51_any_topological_order_dependencies_first_guarded :
   forall g gen, wf_dag g = true ->
-  forall todo_set order start stop onto skip m m1 old new ps m2,
+  forall todo_set order start stop onto m m1 old new ps m2,
   topo_sortedb g order = true ->
-  simple_plan g gen todo_set order start stop onto skip = Ok m ->
+  simple_plan g gen todo_set order start stop onto false = Ok m ->
   m = m1 ++ (old, (new, ps)) :: m2 ->
   forall p, In p ps ->
-    p = onto \/ (In p (parents g old) /\ rm_get m1 p = None) \/
+    p = onto \/ (In p (parents g old) /\ ~ In p (map fst m)) \/
     exists o' ps', In (o', (p, ps')) m1 /\
       forall l i j, topo_sortedb g l = true -> index_of o' l = Some i -> index_of old l = Some j -> i < j.
-Proof. exact deps_first_any_topo. Qed.
-Print Assumptions C51_any_topological_order_dependencies_first.
+Proof. exact deps_first_any_topo_noskip. Qed.
+Print Assumptions C51_any_topological_order_dependencies_first_guarded.
 
 (* an injective generate_revid gives pairwise different new ids (and the old
    ids are pairwise different too) *)
 Theorem C51_new_ids_distinct :
-  forall g gen todo_set order start stop onto skip m,
+  forall g gen, wf_dag g = true ->
+  forall todo_set order start stop onto skip m,
   (forall r r' ps ps', gen r ps = gen r' ps' -> r = r') ->
   topo_sortedb g order = true ->
   simple_plan g gen todo_set order start stop onto skip = Ok m ->
@@ -183,7 +204,11 @@ Example C51_example :
   simple_plan g_witness (gen_canon None) (find_unique_ancestors g_witness 5 [2]) [3; 4; 5]
               None (Some 5) 2 false
   = Ok [(3, (103, [2])); (4, (104, [103])); (5, (105, [104]))] /\
-  rebase_todo (fun r => r =? 103) [(3, (103, [2])); (4, (104, [103])); (5, (105, [104]))] = [4; 5].
+  rebase_todo (fun r => r =? 103) [(3, (103, [2])); (4, (104, [103])); (5, (105, [104]))] = [4; 5] /\
+  (* with skip_full_merged the merge 4 is dropped and 5 is replayed on the rewritten 3 *)
+  simple_plan g_witness (gen_canon None) (find_unique_ancestors g_witness 5 [2]) [3; 4; 5]
+              None (Some 5) 2 true
+  = Ok [(3, (103, [2])); (5, (105, [103]))].
 Proof. repeat split; reflexivity. Qed.
 
 (* generate_transpose_plan (modelled in Model/RebaseTranspose.v and tied by the
